@@ -309,7 +309,7 @@ struct Built {
 /// One program: `fn m(v: T) -> string { match tick("s", v) { rows } }` applied
 /// to every value of T that some row matches, then to the `extra`-th unmatched
 /// value (if any); with `as_let`, the first row is a destructuring `let`.
-fn build_program(t: &Ty, rows: &[Pat], unmatched_pick: usize, as_let: bool) -> Built {
+fn build_program(t: &Ty, rows: &[Pat], unmatched_pick: usize, as_let: bool, effect_only: bool) -> Built {
     let adts = base_adts();
     let bytes: [u8; 0] = [];
     let mut d = Dec::new(&bytes);
@@ -327,6 +327,17 @@ fn build_program(t: &Ty, rows: &[Pat], unmatched_pick: usize, as_let: bool) -> B
         let mut bound = vec![];
         let p = instantiate(&mut g, &adts, row, t, &mut bound);
         int_literals |= has_int_literal(&p);
+        if effect_only {
+            // the match is a statement: arms are `()`, catch-all arms and every other arm print
+            let prints = !is_refutable(row) || i % 2 == 1;
+            let e = if prints {
+                Expr::Call(Callee::Builtin(Builtin::Println), vec![Expr::Str(format!("arm{}", i))])
+            } else {
+                Expr::Unit
+            };
+            arms.push((p, e));
+            continue;
+        }
         let mut parts = vec![Expr::Str(format!("{}:", i))];
         for (bv, bt) in bound {
             let s = g.show(&bt, Expr::Var(bv));
@@ -335,7 +346,12 @@ fn build_program(t: &Ty, rows: &[Pat], unmatched_pick: usize, as_let: bool) -> B
         }
         arms.push((p, Gen::concat(parts)));
     }
-    let body = if as_let {
+    let body = if effect_only && !as_let {
+        Expr::Block(
+            vec![Stmt::Expr(Expr::Match(Box::new(scrut), arms.clone()), false)],
+            Some(Box::new(Expr::Str("done".into()))),
+        )
+    } else if as_let {
         let (p, e) = arms.remove(0);
         Expr::Block(vec![Stmt::Let(p, None, scrut)], Some(Box::new(e)))
     } else {
@@ -480,6 +496,7 @@ impl Check for C06 {
     }
     fn make(&self, phase: &str, index: u64, bytes: &[u8], ctx: &mut Ctx) -> Case {
         let adts = base_adts();
+        let mut effect_only = false;
         let (t, rows, pick, as_let) = match phase {
             "exhaustive" => {
                 let (t, rows) = exhaustive_case(index, ctx.tier.pick(3, 4) as u32);
@@ -493,10 +510,11 @@ impl Check for C06 {
                 if phase != "let" && d.chance(150) {
                     rows.push(if d.bool() { Pat::Wild } else { Pat::Var(0) });
                 }
+                effect_only = phase != "let" && d.chance(50);
                 (t, rows, d.below(16), phase == "let")
             }
         };
-        let b = build_program(&t, &rows, pick, as_let);
+        let b = build_program(&t, &rows, pick, as_let, effect_only);
         let mut labels = vec![];
         if b.unmatched > 0 {
             labels.push("non-exhaustive".to_string());
@@ -508,6 +526,9 @@ impl Check for C06 {
         }
         if as_let {
             labels.push("destructuring-let".into());
+        }
+        if effect_only {
+            labels.push("effect-only-match".into());
         }
         labels.push(format!("rows:{}", rows.len().min(5)));
         Case::new(json!({"text": b.text, "expected": b.expected.to_json(), "values": b.values,
